@@ -100,7 +100,8 @@ func (c *Collection) DeleteWithMeta(_ context.Context, key string, oldCas CAS, n
 // storeDocument performs a write to the underlying sqlite database of a document from a given event.
 func (c *Collection) storeDocument(txn *sql.Tx, e *event) error {
 	tombstone := 0
-	if e.isDeletion {
+	if e.isDeletion || e.value == nil {
+		// a document without a body is a tombstone, e.g. xattrs written to a key that does not exist
 		tombstone = 1
 	}
 	_, err := txn.Exec(`INSERT INTO documents(collection,key,value,isJSON,cas,exp,xattrs,tombstone,revSeqNo)
